@@ -42,7 +42,7 @@ def leaves(tier):
 
 def bounds(tier):
     return {"shapes": W.SHAPES, "leaves": leaves(tier), "depth": 2, "rows": [r[0] + str(sorted(r[1].items())) for r in (ROWS if tier == "thorough" else QUICK_ROWS)],
-            "keyfile": ["default", "own"]}
+            "keyfile": ["default", "own", "home-relative (~/...)"], "deep": {"item kinds": ["ctype", "schema"], "wrappers": DEEP_WRAPS, "inner lists": "all of [], [A], [A,B] in every outer container of <= 2 entries", "routes": ["objects", "maps"]}}
 
 
 def jobs(tier):
@@ -50,10 +50,167 @@ def jobs(tier):
     out = []
     for sh in b["shapes"]:
         for leaf in b["leaves"]:
-            kfs = ["own", "default"] if W.catalogue()[leaf][0]["k"] == "Secure" or "secure" in leaf else ["own"]
+            kfs = ["own", "default", "tilde"] if W.catalogue()[leaf][0]["k"] == "Secure" or "secure" in leaf else ["own"]
             for kf in kfs:
                 out.append({"name": "%s/%s/%s" % (sh, leaf, kf), "shape": sh, "leaf": leaf, "depth": b["depth"], "tier": tier, "keyfile": kf})
-    return out
+    return out + deep_jobs(tier)
+
+
+DEEP_WRAPS = ["list", "dict-list", "list-list", "dict-dict-list", "list-dict-list"]
+
+
+def deep_jobs(tier):
+    return [{"name": "deep/%s/%s" % (kind, wrap), "kind": "deep", "itemkind": kind, "wrap": wrap, "tier": tier}
+            for kind in ("ctype", "schema") for wrap in DEEP_WRAPS]
+
+
+def _deep_schema(itemkind, wrap):
+    import cincoconfig as cc
+    m = cc.Schema()
+    m.name = cc.StringField()
+    m.tok = cc.BytesField(encoding="hex")
+    m.pw = cc.SecureField(method="xor")
+    m.dg = cc.ChallengeField("md5")
+    m.v = cc.VirtualField(lambda cfg: 42)
+    item = cc.make_type(m, "DeepItem") if itemkind == "ctype" else m
+    f = cc.ListField(item)
+    if wrap == "dict-list":
+        f = cc.DictField(cc.StringField(), f)
+    elif wrap == "list-list":
+        f = cc.ListField(f)
+    elif wrap == "dict-dict-list":
+        f = cc.DictField(cc.StringField(), cc.DictField(cc.StringField(), f))
+    elif wrap == "list-dict-list":
+        f = cc.ListField(cc.DictField(cc.StringField(), f))
+    s = cc.Schema()
+    s.title = cc.StringField(default="t")
+    s.x = f
+    return s, item
+
+
+def _deep_values(wrap):
+    """populations: every inner list over {[], [A], [A, B]} in every small outer container"""
+    inner = [[], ["A"], ["A", "B"]]
+    dl = [{}] + [{"k": a} for a in inner] + [{"k": a, "j": b} for a in inner[1:] for b in inner]
+    if wrap == "list":
+        return inner
+    if wrap == "dict-list":
+        return dl
+    if wrap == "list-list":
+        return [[]] + [[a] for a in inner] + [[a, b] for a in inner for b in inner]
+    if wrap == "dict-dict-list":
+        return [{}] + [{"o": d} for d in dl] + [{"o": dl[2], "p": dl[3]}]
+    if wrap == "list-dict-list":
+        return [[]] + [[d] for d in dl] + [[dl[2], dl[5]]]
+    raise ValueError(wrap)
+
+
+ITEMS = {"A": {"name": "ann", "tok": b"\x00\xff", "pw": "s3cret-ZQ", "dg": "pw-A"}, "B": {"name": "bob"}}
+
+
+def _deep_fill(val, mk):
+    if isinstance(val, str):
+        return mk(val)
+    if isinstance(val, list):
+        return [_deep_fill(x, mk) for x in val]
+    return {k: _deep_fill(v, mk) for k, v in val.items()}
+
+
+def _deep_plain(val):
+    """configurations at any depth inside containers -> plain comparable data (digests by challenge outcome)"""
+    import cincoconfig as cc
+    if isinstance(val, cc.Config):
+        out = {}
+        for k, v in val:
+            if type(v).__name__ == "DigestValue":
+                out[k] = ("digest", [n for n, it in sorted(ITEMS.items()) if "dg" in it and _chal(v, it["dg"])])
+            else:
+                out[k] = _deep_plain(v)
+        return out
+    if isinstance(val, (list, tuple)):
+        return [_deep_plain(x) for x in val]
+    if isinstance(val, dict):
+        return {k: _deep_plain(v) for k, v in val.items()}
+    return val
+
+
+def _chal(dv, secret):
+    try:
+        dv.challenge(secret)
+        return True
+    except Exception:  # noqa
+        return False
+
+
+def run_deep(job, ctx):
+    import cincoconfig as cc
+    itemkind, wrap = job["itemkind"], job["wrap"]
+    rows = ROWS if job["tier"] == "thorough" else QUICK_ROWS
+    keypath = os.path.join(ctx.tmp, "deep.key")
+    single = job.get("only")
+    for n, val in enumerate(_deep_values(wrap)):
+        for route in ("objects", "maps"):
+            if single is not None and [n, route] != single:
+                continue
+            schema, item = _deep_schema(itemkind, wrap)
+            case = {"job": job.get("name") or job.get("job"), "name": job.get("name") or job.get("job"), "kind": "deep", "itemkind": itemkind, "wrap": wrap, "tier": job["tier"], "only": [n, route]}
+            fp = "C02|deep|%s|%s|" % (itemkind, wrap)
+
+            def bad(what, msg, case=case, fp=fp, val=val, route=route):
+                ctx.violation(fp + what, "x = %s (built from %s): %s" % (V.show(val, 80), route, msg), case)
+            cfg = schema()
+            cfg._key_filename = keypath
+            try:
+                if route == "objects":
+                    cfg.x = _deep_fill(val, lambda name: item(**ITEMS[name]))
+                else:
+                    tree_item = lambda name: {k: (v.hex() if isinstance(v, bytes) else v) for k, v in ITEMS[name].items()}  # noqa
+                    cfg.load_tree({"x": _deep_fill(val, tree_item)})
+                cfg.validate()
+            except Exception as exc:  # noqa
+                bad("build-raises|" + route, "building the state raised %r" % (exc,))
+                continue
+            expected = _deep_fill(val, lambda name: dict({"name": None, "tok": None, "pw": None, "dg": None}, **dict(
+                ITEMS[name], **({"dg": ("digest", [name])} if "dg" in ITEMS[name] else {}))))
+            got0 = _deep_plain(cfg.x)
+            if got0 != expected:
+                bad("state-wrong|" + route, "the configuration reads %s" % V.show(got0, 120))
+                continue
+            try:
+                tree = cfg.to_tree()
+            except Exception as exc:  # noqa
+                bad("to_tree-raises", "to_tree raised %r" % (exc,))
+                continue
+            if not R.is_plain_data(tree):
+                bad("tree-not-plain", "to_tree() is not plain data: %s" % V.show(tree, 120))
+            if "'v'" in repr(tree):
+                bad("virtual-in-tree", "to_tree() contains the virtual field of an item: %s" % V.show(tree, 120))
+            for fmt, opts in rows:
+                row = fmt + ("+" + ",".join("%s=%s" % kv for kv in sorted(opts.items())) if opts else "")
+                ctx.transitions += 1
+                ok = True
+                src = cfg
+                for gen in (1, 2):
+                    try:
+                        data = src.dumps(fmt, **opts)
+                        dst = schema()
+                        dst._key_filename = keypath
+                        dst.loads(data, fmt, **opts)
+                    except Exception as exc:  # noqa
+                        bad("raises|%s|gen%d" % (row, gen), "%s round trip (generation %d) raised %r" % (row, gen, exc))
+                        ok = False
+                        break
+                    got = _deep_plain(dst.x)
+                    if got != expected and not (not val and got in (None, [], {})):
+                        bad("differs|%s|gen%d" % (row, gen), "%s round trip (generation %d) gives %s" % (row, gen, V.show(got, 120)))
+                        ok = False
+                        break
+                    if b"s3cret-ZQ" in (data if isinstance(data, bytes) else data.encode()):
+                        bad("plaintext|%s" % row, "the %s document contains the secret of a nested item" % row)
+                    src = dst
+                ctx.case(("deep", itemkind, wrap, n, route, row), "deep:%s:%s" % (fmt, "ok" if ok else "bad"), bool(val))
+            ctx.traces += 1
+    ctx.sample({"deep": job.get("name") or job.get("job"), "populations": len(_deep_values(wrap))})
 
 
 def with_virtuals(spec):
@@ -125,12 +282,19 @@ class Monitor:
         self.spec = with_virtuals(W.shape(shape, leaf))
         self.rows = ROWS if tier == "thorough" else QUICK_ROWS
         self.keypath = os.path.join(tmp, "own.key")
+        if keyfile == "tilde":         # a home-relative key-file name
+            core.home_dir()
+            self.keypath = "~/c02-own.key"
+            self.keyfile = "own"
+            self.kfname = "tilde"
+        else:
+            self.kfname = keyfile
         self.built = W.Built(self.spec)
         self.done = set()
 
     def case(self, hist, op):
-        return {"shape": self.shape, "leaf": self.leaf, "hist": hist, "op": op, "tier": self.tier, "keyfile": self.keyfile,
-                "job": "%s/%s/%s" % (self.shape, self.leaf, self.keyfile)}
+        return {"shape": self.shape, "leaf": self.leaf, "hist": hist, "op": op, "tier": self.tier, "keyfile": self.kfname,
+                "job": "%s/%s/%s" % (self.shape, self.leaf, self.kfname)}
 
     def ctor_failed(self, ctx, spec, init, exc):
         pass
@@ -209,7 +373,7 @@ class Monitor:
                     ok = False
                     break
                 gens.append(dst)
-            ctx.case((self.shape, self.leaf, self.keyfile, repr(W.snapshot(cfg, abstract=True)), row), "roundtrip:%s:%s" % (fmt, "ok" if ok else "bad"), not default_state)
+            ctx.case((self.shape, self.leaf, self.kfname, repr(W.snapshot(cfg, abstract=True)), row), "roundtrip:%s:%s" % (fmt, "ok" if ok else "bad"), not default_state)
             if ok and self.keyfile == "own" and ("secure" in self.leaf) and not opts:
                 # the re-loaded configuration is given another key file and saved again: the document must then
                 # load with that key file (nothing remembered from the first load may leak into the second save)
@@ -261,6 +425,10 @@ def _kind(diffs):
 
 def run_job(job, ctx):
     single = job.get("single")
+    if single and single.get("kind") == "deep":
+        return run_deep(single, ctx)
+    if job.get("kind") == "deep":
+        return run_deep(job, ctx)
     if single:
         m = Monitor(single["shape"], single["leaf"], single.get("tier", "quick"), single.get("keyfile", "own"), ctx.tmp)
         W.explore(ctx, m.spec, single["leaf"], 0, m, only=(single["hist"], single["op"]))
